@@ -256,6 +256,23 @@ def posthoc(run):
                                    f"as_expression() of d/d{v} of {S.tree_str(etree)}: "
                                    + "; ".join(f"{lab} -> {_ts(t)}" for lab, t, _, _, _ in entries[:6])
                                    + f" [{verdict}]"))
+    # an early object whose construction (or a late object whose as_expression()) raises something other
+    # than an overflow, while the late / numeric side of the same expression works, does not "behave
+    # identically": there is then no object to record a disagreeing answer from, so it is checked here
+    for step, out in run.records:
+        if out[0] != "exc" or out[1] in ("OverflowError", "MemoryError", "OpTimeout", "DomainError", "RunTimeout"):
+            continue
+        symbolic = (step["k"] == "asx") or (step["k"] == "mk" and step.get("early")
+                                            and step["cls"] in ("Partial", "Derivative", "Differential"))
+        if not symbolic:
+            continue
+        if step["k"] == "mk" and step["cls"] == "Derivative" and out[1] == "Exception":
+            continue                       # arity: more than one variable, raised early and late alike
+        st["candidates"] += 1
+        viols.append(Violation("C06", "symbolic-route-raises", step["id"],
+                               f"step {step['id']} {step['k']} {engine._step_args(step)} raised {out[1]}: {out[2][:200]} "
+                               f"(the late / numeric side of the same expression does not)"))
+        break
     for step, val, what in eqs:
         st["eq_checked"] += 1
         if val is not True:
